@@ -4811,3 +4811,53 @@ func c02R14(c *Ctx, r *Report) {
 		r.Check(noMax, rule, el.Name(), "memory limits have no maximum", c.pos(el.Decl.Pos()), "the memory is declared with a maximum (or the flag is not 0x00): memory.grow beyond it fails")
 	}
 }
+
+// ---- C02.R15: Print does not end the line on wasm ---------------------------------------------------------------------
+
+func init() {
+	lateInits = append(lateInits, func() {
+		props["C02"].Quick = append(props["C02"].Quick, c02R15)
+		props["C02"].Explanation += " (R15) in the JavaScript runtime (text lint) ferret_std_io_Print does not call console.log, which ends the line, and ferret_std_io_Println writes the newline itself."
+	})
+}
+
+// jsFuncBody cuts the body of `function name(` out of JavaScript source by brace matching ("" if absent).
+func jsFuncBody(src, name string) (string, int) {
+	i := strings.Index(src, "function "+name+"(")
+	if i < 0 {
+		return "", 0
+	}
+	j := strings.Index(src[i:], "{")
+	if j < 0 {
+		return "", 0
+	}
+	depth := 0
+	for k := i + j; k < len(src); k++ {
+		switch src[k] {
+		case '{':
+			depth++
+		case '}':
+			depth--
+			if depth == 0 {
+				return src[i+j : k+1], 1 + strings.Count(src[:i], "\n")
+			}
+		}
+	}
+	return "", 0
+}
+
+func c02R15(c *Ctx, r *Report) {
+	const rule = "C02.R15"
+	r.Describe(rule, "runtime/wasm/runtime.js: the body of ferret_std_io_Print contains no console.log call; the body of ferret_std_io_Println writes \"\\n\"")
+	data, err := os.ReadFile(filepath.Join(c.RepoDir, "runtime", "wasm", "runtime.js"))
+	if !r.Anchor(rule, err == nil, "runtime/wasm/runtime.js") {
+		return
+	}
+	pr, line := jsFuncBody(string(data), "ferret_std_io_Print")
+	pl, _ := jsFuncBody(string(data), "ferret_std_io_Println")
+	if !r.Anchor(rule, pr != "" && pl != "", "runtime.js: ferret_std_io_Print / ferret_std_io_Println") {
+		return
+	}
+	r.Check(!strings.Contains(pr, "console.log(") && strings.Contains(pl, `"\n"`), rule, "runtime.js:ferret_std_io_Print", "Print leaves the line open, Println ends it", fmt.Sprintf("runtime/wasm/runtime.js:%d", line),
+		"Print goes through console.log, which ends the line, and Println is the same function: `io::Print(1); io::Print(2); io::Println(3);` prints 123 natively and three lines on wasm")
+}
